@@ -155,14 +155,22 @@ def make(cfg):
             dt = {'attr': pdmodel.StringDtype()}
         Lt.dtypes, Rt.dtypes = dict(dt), dict(dt)
         ed = entry == 'edit_distance_join' or cfg.get('measure') == 'EDIT_DISTANCE'
-        tok = AbsQgramTok(tok_mode) if ed else CountingTok(tok_mode)
         measure = cfg.get('measure', 'JACCARD')
+        if entry.startswith('ctor:') and not entry.endswith('OverlapFilter'):
+            measure = symdata.choice(c, 'measure', cfg.get('measures', [measure]))
+            if symdata.choice(c, 'lowercase', [False, True]):
+                measure = measure.lower()
+            ed = measure.upper() == 'EDIT_DISTANCE'
         args = dict(l_key='id', r_key='id', l_attr='attr', r_attr='attr', l_out=None, r_out=None,
-                    comp_op='<=' if ed else '>=', measure=measure, tok=tok)
+                    comp_op='<=' if ed else '>=', measure=measure, tok=None)
+        tok = AbsQgramTok(tok_mode) if ed else CountingTok(tok_mode)
+        args['tok'] = tok
         if entry in ('overlap_join',) or entry.endswith('OverlapFilter'):
             args['threshold'] = 1
         elif ed:
-            args['threshold'] = 1
+            args['threshold'] = symdata.choice(c, 'edthr', [0, 1, 2]) if entry.startswith('ctor:') else 1
+        elif measure.upper() == 'OVERLAP':
+            args['threshold'] = symdata.choice(c, 'ovthr', [1, 2])
         else:
             args['threshold'] = 0.5
         # ---- inject the violated precondition ----
@@ -202,6 +210,8 @@ def make(cfg):
             else:
                 args['threshold'] = c.float_var('thr', -1.0, 0.0)
         elif invalid == 'threshold-high':
+            if args['measure'].upper() in ('OVERLAP', 'EDIT_DISTANCE'):
+                c.assume(False)          # these measures have no upper limit
             args['threshold'] = c.float_var('thr', 1.0, 4.0, lo_open=True)
         elif invalid == 'bad-op':
             bad_ops = ['>=', '>', '!=', 'x'] if ed else ['<=', '<', '!=', 'x']
@@ -212,7 +222,9 @@ def make(cfg):
             args['tok'] = symdata.choice(c, 'badtok', [object(), 'ws', 3])
         elif invalid == 'non-qgram-tokenizer':
             args['tok'] = CountingTok(tok_mode)
-            args['measure'] = 'EDIT_DISTANCE'
+            args['measure'] = 'edit_distance' if args['measure'].islower() else 'EDIT_DISTANCE'
+            if entry.startswith('ctor:'):
+                args['threshold'] = symdata.choice(c, 'edthr2', [0, 1, 0.5])
         elif invalid == 'unknown-measure':
             args['measure'] = symdata.choice(c, 'badm', ['JACARD', 'overlap_coefficient', ''])
         Lf, Rf = Lt.frame(), Rt.frame()
@@ -225,6 +237,8 @@ def make(cfg):
         if entry.startswith('filter_candset') or entry == 'apply_matcher':
             crows = [(0, r[0], q[0]) for r in Lt.rows[:1] for q in Rt.rows[:2] if r[0] is not None
                      and q[0] is not None]
+            if symdata.choice(c, 'emptycand', [False, True]):
+                crows = []            # a candidate set without rows is still a valid candidate set
             cand = pdmodel.FakeFrame(crows, columns=['_id', 'l_id', 'r_id'])
             if invalid == 'candset-not-frame':
                 cand = crows
